@@ -594,6 +594,15 @@ pub fn drive_inputs(a: &Args, w: &Words, budget_bytes: usize, maxlen: usize) {
         rec.update(0, ((i + 1) % 3) as u8, &sparse);
         rec.fin(0);
     }
+    // one input past 2^16 bytes (a 16-bit position, count or index in the engine would wrap here)
+    {
+        rec.begin();
+        rec.new_gen(0);
+        let data = make_input(&mut rng, w, 0, 65_536 + 4_500);
+        rec.update(0, 0, &data);
+        rec.fin(0);
+        rec.hash_buf(0);
+    }
     let mut used = 0usize;
     let mut first = true;
     while used < budget_bytes {
@@ -760,6 +769,17 @@ pub fn drive_histories(a: &Args, w: &Words, budget_bytes: usize, maxlen: usize, 
         rec.hash_stream(0, &mut rng, mr);
         rec.hash_stream(0, &mut rng, 40000);
         used += n;
+    }
+    // one call of more than 2^16 ordinary bytes per form (a 16-bit length or position would wrap)
+    if !with_decl {
+        for f in 0..2u8 {
+            rec.begin();
+            rec.new_gen(0);
+            let data = make_input(&mut rng, w, if f == 0 { 0 } else { 4 }, 65_536 + 900);
+            rec.update(0, f, &data);
+            rec.fin(0);
+            used += data.len();
+        }
     }
     // long trigger-free runs through each update form in ONE call where the form allows it: the three
     // forms account the input size differently, and a counter narrower than the size would only show
